@@ -97,8 +97,15 @@ fn clock_args(rng: &mut Rng, stm: Color, max_plan: u128) -> String {
     for _ in 0..100 {
         let (t, i) = if stm == Color::White { ("wtime", "winc") } else { ("btime", "binc") };
         let mut a = String::new();
-        match rng.below(5) {
+        match rng.below(6) {
             0 => {}
+            5 => {
+                // the wide grid of C03 (negative, zero, huge and out-of-range integers, unknown
+                // tokens, any token order) without the counts C08 does not quantify over
+                let w = crate::sess::go_args(rng, stm, max_plan);
+                let w = format!(" {}", w).replace(" movestogo 0", "").replace(" movestogo -3", "");
+                return w.trim().to_string();
+            }
             1 => a = format!("{} {}", t, rng.pick(&["0", "50", "100", "101", "150", "400", "1000", "3000", "6100"])),
             2 => a = format!("{} {} movestogo {}", t, rng.pick(&["150", "400", "1000", "3000"]), rng.pick(&["1", "2", "10", "40"])),
             3 => a = format!("wtime {} btime {} winc {} binc {}", rng.pick(&["150", "1000", "3000"]), rng.pick(&["150", "1000", "3000"]), rng.pick(&["0", "10", "100"]), rng.pick(&["0", "10", "100"])),
